@@ -230,7 +230,10 @@ fn enc_of(h: &http::HeaderMap) -> Result<Option<Enc>, String> {
 /// tonic Channel + generated client -> raw h2 server: the request as the wire carries it.
 pub fn run_client_view(sim: &Sim, _idx: u64) {
     let shape = sim.draw(4) as usize;
-    let plan = gen_plan(sim, 1, shape, 30_000);
+    let mut plan = gen_plan(sim, 1, shape, 30_000);
+    // the scripted raw server answers after it has read the whole request: no conversation with it
+    plan.ping_pong = false;
+    let plan = plan;
     let send = if sim.chance(1, 2) { Some(sim.pick(&indep::ALL_ENC)) } else { None };
     let comp = CompCfg { server_accept: vec![], server_send: vec![], client_send: send, client_accept: if sim.chance(1, 2) { vec![sim.pick(&indep::ALL_ENC)] } else { vec![] } };
     let (_sopts, copts) = draw_h2_opts(sim);
